@@ -67,7 +67,7 @@ Proof.
   { apply (Post_trans 0 0 s (emit ev s) s1); [apply Post_emit; assumption|apply Post_obs]. cbn [tr emit clean forallb]. rewrite Hev. exact Hc. }
   pose proof (pop_script_frame si s1) as F. pose proof (pop_script_measure si s1) as (Q1 & Q2 & Q3).
   destruct (pop_script si s1) as [sc s2]. cbn [fst snd] in *.
-  destruct F as (Fcs & Fsock & Fregw & Foutq & Fping & Fincb & Fproto & Fnsock & Fsched & Ftr).
+  destruct F as (Fcs & Fsock & Fregw & Foutq & Fping & Fincb & Fcq & Fproto & Fnsock & Fsched & Ftr).
   destruct P1 as (A1 & A2 & A3 & A4).
   assert (Hc2 : clean (tr s2) = true) by (rewrite Ftr; exact A1).
   destruct sc as [|a sc].
@@ -206,6 +206,7 @@ Qed.
 Lemma loop_write_F s : Good s -> incb s = false -> Post 0 s (fst (loop_write c nested s)).
 Proof.
   intros HG Hi. pose proof HG as [Hd Hc]. unfold loop_write. destruct (sock s); [|apply Post_refl; exact Hc].
+  destruct (negb (cq s)); [apply Post_refl; exact Hc|].
   unfold packet_write.
   assert (Hmu : (mu s < pw_fuel s)%nat) by (unfold mu, pw_fuel, M; lia).
   pose proof (pw_loop_F (pw_fuel s) s Hmu HG Hi) as P1.
@@ -222,10 +223,10 @@ Qed.
 Lemma packet_queue_F k s : Good s -> Post 1 s (fst (packet_queue c nested k s)).
 Proof.
   intros HG. pose proof HG as [Hd Hc]. unfold packet_queue.
-  set (s1 := set_outq (match k with KConnect => mkQ k false :: outq s | _ => outq s ++ [mkQ k false] end) s).
+  set (s1 := match k with KConnect => set_cq true (set_outq (mkQ k false :: outq s) s) | _ => set_outq (outq s ++ [mkQ k false]) s end).
   assert (P1 : Post 1 s s1).
-  { unfold Post, M, s1. ssimpl. destruct k; rewrite ?app_length; cbn [length]; repeat split; auto; lia. }
-  destruct (negb (c_ext c) && negb (incb s1)) eqn:E.
+  { unfold Post, M, s1. destruct k; ssimpl; rewrite ?app_length; cbn [length]; repeat split; auto; lia. }
+  destruct (negb (c_ext c) && cq s1 && negb (incb s1)) eqn:E.
   - apply andb_true_iff in E as [_ E]. apply negb_true_iff in E.
     apply (Post_trans 1 0 _ _ _ P1). apply loop_write_F; [eapply Good_post; eassumption|exact E].
   - cbn [fst]. apply (Post_trans 1 0 _ _ _ P1). apply call_regw_F. eapply Good_post; eassumption.
@@ -242,12 +243,13 @@ Proof.
   assert (P3 : Post 0 s (set_outq [] s2)).
   { destruct P12 as (A1 & A2 & A3 & A4). unfold Post, M in *. ssimpl. cbn [length]. repeat split; auto; lia. }
   destruct ok; cbn [negb].
-  2:{ cbn [fst]. apply (Post_weaken 0 1); [lia|]. apply (Post_trans 0 0 _ _ _ P3). apply Post_emit; [reflexivity|apply P3]. }
+  2:{ cbn [fst]. apply (Post_weaken 0 1); [lia|]. apply (Post_trans 0 0 _ _ _ P3).
+      apply (Post_trans 0 0 _ (set_cq false (set_outq [] s2))); [apply Post_frame; auto; apply P3|]. apply Post_emit; [reflexivity|apply P3]. }
   set (id := nsock (set_outq [] s2) + 1).
-  set (s4 := emit (SockNew id) (set_regw false (set_sock (Some id) (set_nsock id (set_outq [] s2))))).
+  set (s4 := emit (SockNew id) (set_regw false (set_sock (Some id) (set_nsock id (set_cq false (set_outq [] s2)))))).
   assert (P4 : Post 0 s s4).
   { apply (Post_trans 0 0 _ _ _ P3). unfold s4.
-    eapply (Post_trans 0 0); [apply Post_frame with (s' := set_regw false (set_sock (Some id) (set_nsock id (set_outq [] s2)))); auto; apply P3|].
+    eapply (Post_trans 0 0); [apply Post_frame with (s' := set_regw false (set_sock (Some id) (set_nsock id (set_cq false (set_outq [] s2))))); auto; apply P3|].
     apply Post_emit; [reflexivity|apply P3]. }
   assert (P5 : Post 0 s (if c_sockcb c then run_site nested SiOpen false (SockOpen id) s4 else s4)).
   { destruct (c_sockcb c); [|exact P4]. apply (Post_trans 0 0 _ _ _ P4).
@@ -403,7 +405,7 @@ Lemma step_clean c s o : clean (snd (step c s o)) = true.
 Proof.
   unfold step. cbn [snd].
   set (s0 := set_incb false (set_sched (o_sched o) (set_scr (o_scr o)
-               (mkSt (cs s) (sock s) (regw s) (outq s) (ping s) (incb s) (proto s) (nsock s) (sched s) (scr s) [])))).
+               (mkSt (cs s) (sock s) (regw s) (outq s) (ping s) (incb s) (cq s) (proto s) (nsock s) (sched s) (scr s) [])))).
   assert (HG : Good (nscripts (o_scr o)) s0) by (split; [unfold s0; ssimpl; lia|reflexivity]).
   pose proof (run_top_F c (nested_at c (nscripts (o_scr o))) (nscripts (o_scr o)) (nested_at_F c _) (o_call o) s0 HG eq_refl) as H.
   unfold clean in *. unfold obs. ssimpl. rewrite forallb_forall in *. intros e He. apply in_rev in He.
